@@ -39,7 +39,7 @@ ASSUMPTIONS = [
     'a message element with no children at all (not schema-valid) may classify as its class or as UnknownMosFileType',
     'damaged texts on which ElementTree raises something other than ParseError are not generated',
 ]
-MANDATORY = ['filter:error', 'source:bytes', 'source:file', 'encoding:latin1', 'encoding:utf16', 'ea-shape:unlisted', 'ea-shape:listed',
+MANDATORY = ['filter:error', 'source:bytes', 'source:file', 'encoding:latin1', 'encoding:utf16', 'encoding:utf16be', 'ea-shape:unlisted', 'ea-shape:listed',
              'ea-op:unknown', 'ea-op:missing', 'ea-source:absent', 'malformed', 'unknown-root',
              'nested-decoy', 'envelope-permuted', 'plain-tag']
 
@@ -74,15 +74,19 @@ def expected(text):
     return {B.EA_TABLE.get((op, t_item, s_item), 'UnknownMosFileType')}
 
 
-ENCODINGS = {'latin1': ('ISO-8859-1', 'iso-8859-1'), 'utf16': ('UTF-16', 'utf-16')}
+ENCODINGS = {'latin1': ('ISO-8859-1', 'iso-8859-1'), 'utf16': ('UTF-16', 'utf-16'),
+             'utf16be': ('UTF-16', 'utf-16-be')}
 
 
 def encoded(text, enc):
-    """The document as bytes in a declared non-UTF-8 encoding (None if not encodable)."""
+    """The document as bytes in a declared non-UTF-8 encoding (raises if not encodable).
+    utf16: platform order with BOM; utf16be: big-endian with BOM and a trailing newline."""
     decl, codec = ENCODINGS[enc]
     body = text[text.index('?>') + 2:] if text.startswith('<?xml') else text
-    return f'<?xml version="1.0" encoding="{decl}"?>'.encode(codec)[0 if enc != 'utf16' else 0:] + \
-        (body.encode(codec)[2:] if enc == 'utf16' else body.encode(codec))
+    doc = f'<?xml version="1.0" encoding="{decl}"?>' + body
+    if enc == 'utf16be':
+        return b'\xfe\xff' + (doc + '\n').encode(codec)
+    return doc.encode(codec)
 
 
 def encodable(text, enc):
@@ -420,7 +424,7 @@ def shard_subprocess(args):
 def run(tier, seed, procs):
     quick = tier == 'quick'
     cols = drive.pool_map(shard_enum, [None], 1)
-    shards, per = (8, 250) if quick else (16, 12000)
+    shards, per = (8, 150) if quick else (16, 12000)
     cols += drive.pool_map(shard_hyp, [(per, seed * 1000 + i) for i in range(shards)], procs)
     cols += drive.pool_map(shard_subprocess, [None], 1)
     shutil.rmtree(_tmp(), ignore_errors=True)
